@@ -1,5 +1,117 @@
-(* C06 — List-then-watch reconstructs the store. *)
-From KB Require Import Base.Cases Model.WatchSys Model.C06Cases.
+(* C06 — List-then-watch reconstructs the store.
+   Property theorems only: each is closed by `exact <lemma>` and followed by Print Assumptions.
+   Models: Model/C06Cases.v (versions, MVCC snapshot, sequential write model over arbitrary histories of
+   successful and failed writes, event replay, compaction rule) and the producer of Model/WatchSys.v. *)
+From KB Require Import Base.Cases Model.WatchSys Model.C06Cases Proofs.WatchSys Proofs.C06.
 Local Open Scope N_scope.
-Example C06_placeholder : top = 18446744073709551615.
-Proof. reflexivity. Qed.
+
+(* In every reachable state of the watch system — all label lists, all parameters — whose sequencer is fed from
+   a slot sequence numbered c0+1, c0+2, ..., the events ever cached (plus the one already built, committed and
+   about to be cached) are exactly `map to_event` of the successful slots with revision <= committed, in order:
+   one event per successful write, same revision, none for a failed write. *)
+Theorem C06_events_are_versions : forall pa l c0 slots ls,
+  numbered c0 slots -> (forall we, In (LSeqTake we) ls -> In we slots) ->
+  let s := run pa ls (init l c0) in
+  s_cached s ++ cur_list s = events_of (firstn (N.to_nat (s_committed s - c0)) slots).
+Proof. exact events_are_versions. Qed.
+Print Assumptions C06_events_are_versions.
+
+(* ... in particular for the slots of the sequential write model, whose stored versions are those of its slots *)
+Theorem C06_events_are_versions_exec : forall pa l c0 h ls,
+  (forall we, In (LSeqTake we) ls -> In we (fst (exec c0 h))) ->
+  let s := run pa ls (init l c0) in
+  s_cached s ++ cur_list s = events_of (firstn (N.to_nat (s_committed s - c0)) (fst (exec c0 h))) /\
+  snd (exec c0 h) = versions_of (fst (exec c0 h)).
+Proof. exact events_are_versions_exec. Qed.
+Print Assumptions C06_events_are_versions_exec.
+
+(* a delete event carries the value and the modification revision it superseded *)
+Theorem C06_delete_carries_prev : forall V r a,
+  let '(we, _) := exec_one V r a in
+  we_valid we = true -> we_verb we = VDelete -> live V (we_key we) top = Some (we_val we, we_prev we).
+Proof. exact delete_carries_prev. Qed.
+Print Assumptions C06_delete_carries_prev.
+
+(* replay: for every history of successful and failed writes, all R <= R' and every prefix P, applying the
+   events of (R, R'] on P to the range result at R gives the range result at R' *)
+Theorem C06_replay : forall c0 h R R' P, R <= R' ->
+  apply_events (filter (in_window R R' P) (events_of (fst (exec c0 h)))) (in_prefix P (snapshot (snd (exec c0 h)) R))
+  = in_prefix P (snapshot (snd (exec c0 h)) R').
+Proof. exact replay_exec_equal. Qed.
+Print Assumptions C06_replay.
+
+(* the same for any resolved slot sequence with revision-sorted events (concurrent writers) *)
+Theorem C06_replay_slots : forall slots R R' P, sorted (events_of slots) -> R <= R' ->
+  apply_events (filter (in_window R R' P) (events_of slots)) (in_prefix P (snapshot (versions_of slots) R))
+  = in_prefix P (snapshot (versions_of slots) R').
+Proof. exact replay_equal. Qed.
+Print Assumptions C06_replay_slots.
+
+(* a read is the replay of all events up to its revision *)
+Theorem C06_read_is_replay : forall slots k R,
+  live (versions_of slots) k R = fold_left (eff k) (filter (upto R) (events_of slots)) None.
+Proof. exact live_is_replay. Qed.
+Print Assumptions C06_read_is_replay.
+
+(* compaction (also partial / still running) with floor <= R removes only superseded versions and tombstones of
+   revision <= floor, older versions of a key going with the newer removed one: every read and every snapshot at
+   R is unchanged; the events do not depend on the stored versions at all *)
+Theorem C06_compaction_preserves_reads : forall V floor keep k R,
+  newest_first V -> compaction_rule V floor keep -> floor <= R ->
+  live (filter keep V) k R = live V k R.
+Proof. exact compaction_preserves_reads. Qed.
+Print Assumptions C06_compaction_preserves_reads.
+
+Theorem C06_compaction_preserves_snapshot : forall V floor keep R,
+  newest_first V -> compaction_rule V floor keep -> floor <= R ->
+  snapshot (filter keep V) R = snapshot V R.
+Proof. exact compaction_preserves_snapshot_equal. Qed.
+Print Assumptions C06_compaction_preserves_snapshot.
+
+(* the executable oracle accepts everything the model produces *)
+Theorem C06_oracle_sound : forall c, c06_valid c -> c06_check c = true -> c06_oracle c = None.
+Proof. exact c06_oracle_sound. Qed.
+Print Assumptions C06_oracle_sound.
+
+(* ---------- non-vacuity ---------- *)
+
+Definition k1 : bytes := [47; 97; 47; 120].   (* "/a/x" *)
+Definition k2 : bytes := [47; 98; 47; 121].   (* "/b/y" *)
+(* create k1, failed create k1, update k1, create k2, refused update (engine), delete k1, create k1 again *)
+Definition h6 : list attempt :=
+  [mkAtt (WCreate k1 [1]) true; mkAtt (WCreate k1 [2]) true; mkAtt (WUpdate k1 [3] 101) true;
+   mkAtt (WCreate k2 [4]) true; mkAtt (WUpdate k2 [5] 104) false; mkAtt (WDelete k1 0) true;
+   mkAtt (WCreate k1 [7]) true].
+
+Example C06_history_mixed :
+  map we_valid (fst (exec 100 h6)) = [true; false; true; true; false; true; true] /\
+  map e_rev (events_of (fst (exec 100 h6))) = [101; 103; 104; 106; 107] /\
+  in_prefix [47; 97] (snapshot (snd (exec 100 h6)) 103) = [(k1, ([3], 103))] /\
+  in_prefix [47; 97] (snapshot (snd (exec 100 h6)) 106) = [] /\
+  apply_events (filter (in_window 103 107 [47; 97]) (events_of (fst (exec 100 h6)))) (in_prefix [47; 97] (snapshot (snd (exec 100 h6)) 103))
+    = [(k1, ([7], 107))].
+Proof. vm_compute. repeat split. Qed.
+
+(* a compaction at floor 106 that removes the versions 101, 103 and the tombstone 106 satisfies the rule *)
+Example C06_compaction_inhabited :
+  let V := snd (exec 100 h6) in
+  let keep := fun x : version => negb ((v_rev x =? 101) || (v_rev x =? 103) || (v_rev x =? 106)) in
+  forallb (fun x => keep x || (removable V 106 x &&
+                   forallb (fun y => negb (beqb (v_key y) (v_key x) && (v_rev y <? v_rev x)) || negb (keep y)) V)) V = true /\
+  snapshot (filter keep V) 106 = snapshot V 106 /\ length (filter keep V) = 2%nat.
+Proof. vm_compute. repeat split. Qed.
+
+(* removing the tombstone but not the version under it is NOT allowed by the rule, and would resurrect the key *)
+Example C06_rule_needed :
+  let V := snd (exec 100 h6) in
+  let keep := fun x : version => negb (v_rev x =? 106) in
+  snapshot (filter keep V) 106 <> snapshot V 106.
+Proof. vm_compute. discriminate. Qed.
+
+(* the producer fed with these slots, interleaved with hub items *)
+Example C06_producer_inhabited :
+  let slots := fst (exec 100 h6) in
+  let ls := flat_map (fun we => [LSeqTake we; LSeqCache; LSeqSend; LHubItem []]) slots in
+  let s := run real_params ls (init 3 100) in
+  s_committed s = 107 /\ map e_rev (s_cached s) = [101; 103; 104; 106; 107].
+Proof. vm_compute. repeat split. Qed.
